@@ -82,7 +82,12 @@ impl Case for C04Case {
                         // a later CONT / RETURN / NEXT without an edit in between is legitimate
                         stopped_once = true;
                         edited_since_stop = false;
-                        if after != before && w.fatal.is_none() {
+                        let self_editing = before.contains(" DELETE") || before.contains(" NEW") || before.contains(":NEW") || before.contains(":DELETE");
+                        if after != before && self_editing {
+                            // GOTO n / GOSUB n entered a program that carries a DELETE or NEW statement
+                            w.stats.bump("c04.program_edited_itself");
+                            edited_since_stop = true;
+                        } else if after != before && w.fatal.is_none() {
                             fail = Some(Violation {
                                 key: "C04:direct-statement-edited-program".into(),
                                 detail: format!("history op {} ({:?}) changed the listing from {:?} to {:?}", i, text, before, after),
@@ -122,6 +127,14 @@ impl Case for C04Case {
                     }
                     stopped_once = true;
                     edited_since_stop = false;
+                    // a program may edit itself (a DELETE or NEW statement ends the run): that is
+                    // an edit after which nothing may be resumed either
+                    let after = w.listing_text();
+                    if after != before {
+                        w.stats.bump("fault.edit");
+                        w.stats.bump("c04.program_edited_itself");
+                        edited_since_stop = true;
+                    }
                 }
                 H::Load { name, lines } => {
                     w.disk.insert(name.clone(), lines.clone());
@@ -388,7 +401,18 @@ pub fn edit_line(rng: &mut Rng, prog: &Program, cfg: &GenCfg) -> String {
                 _ => format!("RENUM {},{},{}", a, a, 1),
             }
         }
-        95..=96 => "NEW".to_string(),
+        95 => "NEW".to_string(),
+        96 => {
+            // a line that edits the program when it is executed
+            let n = pick_num(rng);
+            let a = if nums.is_empty() { 10 } else { *rng.pick(&nums) };
+            match rng.below(4) {
+                0 => format!("{} DELETE {}", n, a),
+                1 => format!("{} DELETE {}-", n, a),
+                2 => format!("{} IF N%=0 THEN DELETE -{}", n, a),
+                _ => format!("{} NEW", n),
+            }
+        }
         _ => {
             let n = pick_num(rng);
             format!("{} REM {}", n, rng.pick(&["x", "é", "GOTO 10"]))
@@ -472,6 +496,28 @@ impl Property for C04 {
                 }
             }
         }
+        if rng.pct(8) && !prog.lines.is_empty() {
+            // self-editing program: insert the editing line early, run, then probe
+            let first = prog.lines[0].num;
+            let victim = prog.lines[rng.usize(prog.lines.len())].num;
+            let at = prog.lines[rng.usize(prog.lines.len())].num;
+            let stmt = match rng.below(4) {
+                0 => format!("DELETE {}", victim),
+                1 => format!("DELETE {}-", victim),
+                2 => format!("DELETE -{}", victim),
+                _ => "NEW".to_string(),
+            };
+            let num = if rng.pct(50) && first > 0 { first - 1 } else { at.saturating_add(1).min(65529) };
+            history.push(H::Line {
+                text: format!("{} {}", num, stmt),
+                must_not_edit: false,
+                budget: 500,
+            });
+            history.push(H::StopRun {
+                line: "RUN".into(),
+                intr: None,
+            });
+        }
         let nums: Vec<u16> = prog.lines.iter().map(|l| l.num).collect();
         // a user function the (earlier) run defined, called from direct mode
         let mut fn_call: Option<String> = None;
@@ -529,7 +575,7 @@ impl Property for C04 {
         }
     }
     fn rule(&self) -> &'static str {
-        "one evaluation = a generated base program, a history of 1-8 operations (insert/replace line, bare number of a present/absent line, DELETE in four range forms, RENUM with valid and invalid triples, NEW, LOAD from the SimDisk, harmless direct statements, a RUN stopped by Ctrl-C at a seeded instruction / STOP / END / error) and a final probe (RUN, RUN n, CONT, RETURN, NEXT, NEXT v, a direct call of a user function the program defines) executed on the history-laden runtime and on a fresh twin fed get_listing() text, entropy aligned; distinct = distinct API/event log fingerprint; non-trivial = at least one effective edit and more than 10 VM instructions"
+        "one evaluation = a generated base program, a history of 1-8 operations (insert/replace line, bare number of a present/absent line, DELETE in four range forms, RENUM with valid and invalid triples, NEW, LOAD from the SimDisk, harmless direct statements, a RUN stopped by Ctrl-C at a seeded instruction / STOP / END / error / a DELETE or NEW statement of the program itself) and a final probe (RUN, RUN n, CONT, RETURN, NEXT, NEXT v, a direct call of a user function the program defines) executed on the history-laden runtime and on a fresh twin fed get_listing() text, entropy aligned; distinct = distinct API/event log fingerprint; non-trivial = at least one effective edit and more than 10 VM instructions"
     }
     fn assumptions(&self) -> Vec<&'static str> {
         vec![
@@ -548,6 +594,7 @@ impl Property for C04 {
             "c04.stopped_with_for_frames",
             "c04.harmless_direct_statement",
             "c04.fn_probe_compared",
+            "c04.program_edited_itself",
         ]
     }
 }
